@@ -135,6 +135,10 @@ class BundleInstance:
         cp.props = copy(self.props)
         return cp
 
+    def __deepcopy__(self, _memo) -> "BundleInstance":
+        """Bundle Instance "deep" copying. Like `Signal`s, shares its (definition) `of` rather than copying it."""
+        return self.__copy__()
+
     def __rmul__(self, num: int) -> List["Self"]:
         """# Right multiplication. Creates `num` copies of ourselves."""
         if not isinstance(num, int):
